@@ -100,4 +100,98 @@ def search(func, candidate, seed, tier, obligation=''):
                     st.close()
             finally:
                 shutil.rmtree(d, ignore_errors=True)
+    # ---- higher level: blob create / rewrite / undo / redo / pack through a DB on FileStorage
+    import transaction
+    import ZODB
+    from ZODB.blob import Blob
+    for keep_old in (True, False):
+        d = tempfile.mkdtemp(prefix='c13db-')
+        try:
+            bd = os.path.join(d, 'blobs')
+            st = H.FileStorage(os.path.join(d, 'Data.fs'), create=True, blob_dir=bd,
+                               pack_keep_old=keep_old)
+            db = ZODB.DB(st)
+            tm = transaction.TransactionManager()
+            conn = db.open(tm)
+            root = conn.root()
+
+            def committed_blob_records():
+                out = set()
+                for t in st.iterator():
+                    for r in t:
+                        if r.data and st.is_blob_record(r.data):
+                            out.add((r.oid, r.tid))
+                return out
+
+            def check(label):
+                files = set()
+                for f in blob_files(bd):
+                    oidpart = os.path.relpath(os.path.dirname(f), bd)
+                    oid = st.fshelper.layout.path_to_oid(oidpart)
+                    files.add((oid, bytes.fromhex(os.path.basename(f)[2:-5].rjust(16, '0'))))
+                recs = committed_blob_records()
+                if files != recs:
+                    return (label, 'blob files == committed blob records (%d)' % len(recs),
+                            'files without record: %r; records without file: %r' % (
+                                sorted(x[1].hex() for x in files - recs),
+                                sorted(x[1].hex() for x in recs - files)))
+                return None
+
+            def write(text):
+                with root['b'].open('w') as f:
+                    f.write(text)
+            root['b'] = Blob()
+            write(b'one')
+            tm.commit()
+            write(b'two')
+            tm.commit()
+            steps = []
+            cases += 1
+            r = check('create + rewrite')
+            # undo of the rewrite inside a transaction that aborts after the storage voted
+            undo_id = db.undoLog(0, 1)[0]['id']
+
+            class Veto:
+                def sortKey(self):
+                    return '~~~~'
+
+                def abort(self, t):
+                    pass
+                tpc_begin = commit = tpc_abort = tpc_finish = abort
+
+                def tpc_vote(self, t):
+                    raise RuntimeError('veto')
+            if not r:
+                db.undo(undo_id, tm.get())
+                tm.get().join(Veto())
+                try:
+                    tm.commit()
+                except RuntimeError:
+                    tm.abort()
+                cases += 1
+                r = check('undo of a blob rewrite, aborted after the storage voted')
+            if not r:
+                db.undo(undo_id, tm.get())
+                tm.commit()
+                cases += 1
+                r = check('undo of a blob rewrite, committed')
+                conn.sync()
+                if not r and root['b'].open('r').read() != b'one':
+                    r = ('undo', "blob reads b'one' again", 'reads %r' % root['b'].open('r').read())
+            if not r:
+                write(b'three')
+                tm.commit()
+                import time as _t
+                _t.sleep(0.01)
+                db.pack(_t.time())
+                cases += 1
+                r = check('pack after create, rewrite, undo, rewrite (keep_old=%s)' % keep_old)
+                if not r and root['b'].open('r').read() != b'three':
+                    r = ('pack', "blob reads b'three'", 'reads %r' % root['b'].open('r').read())
+            conn.close()
+            db.close()
+            if r:
+                return fail({'scenario': r[0], 'pack_keep_old': keep_old}, r[1], r[2], cases)
+        finally:
+            shutil.rmtree(d, ignore_errors=True)
     return {'found': False, 'cases': cases}
